@@ -78,6 +78,19 @@ def scenarios():
                 ops += [{"op": "send", "c": c, "kind": "PINGREQ"} for c in ((3, 1, 2) if pre else (1, 2))]
             ops.append({"op": "quiesce"})
             out.append(ops)
+    # a takeover whose removal of the displaced session's record is parked while that session ends on its own (its client hangs up
+    # or disconnects - which is why it reconnects): the record is gone when the removal goes on; the new session is established all the same
+    for hold in ("sess.delete", "sess.byclientid", "sess.create"):
+        for how in ("close", "disconnect"):
+            for ping in (False, True):
+                c1 = {"op": "connect", "c": 1, "n": 1, "client": "same", "ka": 10}
+                c2 = {"op": "connect", "c": 2, "n": 1, "client": "same", "ka": 10}
+                bye = {"op": "close", "c": 1} if how == "close" else {"op": "send", "c": 1, "kind": "DISCONNECT"}
+                ops = [{"op": "connect", "c": 9, "n": 1, "client": "pub", "ka": 6000}, c1]
+                if ping:
+                    ops.append({"op": "send", "c": 1, "kind": "PINGREQ"})
+                ops += [{"op": "race", "hold": hold, "a": c2, "b": [bye]}, {"op": "send", "c": 2, "kind": "PINGREQ"}, {"op": "quiesce"}]
+                out.append(ops)
     # a client that pipelines CONNECT with DISCONNECT (or hangs up) without waiting for the CONNACK: the set-up is parked where it
     # registers the session (or looks for earlier ones); whatever order the broker does things in, no trace of the session stays
     for hold in ("reg.create", "sess.create", "sess.byclientid"):
